@@ -141,4 +141,11 @@ theorem windowsExact_equal_coords (stop : SliceMode) (dims : List DimDesc) (shap
     intro d dim w hd hw hlt
     simp at hlt
 
+/-- the conclusion shared by the statements below: on axis `d` of the windows `ws`, samples `i`, `j` of the axis'
+descriptor with the same coordinate are both inside or both outside -/
+def RunsWhole (dims : List DimDesc) (ws : List Win) (npos : Nat) : Prop :=
+  ∀ (d : Nat) (dim : DimDesc) (w : Win), dims[d]? = some dim → ws[d]? = some w → d < npos →
+    ∀ i j : Nat, InDom (dimDom dim) i → InDom (dimDom dim) j → dimCoord dim i = dimCoord dim j →
+      ((w.1 ≤ (i : Int) ∧ (i : Int) < w.2) ↔ (w.1 ≤ (j : Int) ∧ (j : Int) < w.2))
+
 end Nix.Tagging
